@@ -199,30 +199,16 @@ func hostileInputs(maxLen int) [][]byte {
 }
 
 func (rc *RunCtx) judgeDT(recs []DTRec) map[int][]string {
-	dir := filepath.Join(rc.Dir, fmt.Sprintf("dt-j%d", rc.judgeSeq))
-	rc.judgeSeq++
+	n := shardCount(len(recs), 6000)
+	vs := rc.judgeShards("Trace_DT", n, func(s int, dir string) (int, error) {
+		part := []DTRec{}
+		for i := s; i < len(recs); i += n {
+			part = append(part, recs[i])
+		}
+		return len(part), writeNDJSON(filepath.Join(dir, "dt.ndjson"), part)
+	}, 30*time.Minute)
 	out := map[int][]string{}
-	if err := mkdirLink(rc.Dir, dir); err != nil {
-		rc.infra("%v", err)
-		return out
-	}
-	if err := writeNDJSON(filepath.Join(dir, "dt.ndjson"), recs); err != nil {
-		rc.infra("%v", err)
-		return out
-	}
-	r, err := tlcRun(dir, "Trace_DT", 16, 8000, 30*time.Minute)
-	if err != nil {
-		rc.infra("%v", err)
-		return out
-	}
-	if r.Failed || r.Distinct != 128 {
-		rc.infra("judge Trace_DT: %s (%d states)\n%s", r.ErrText, r.Distinct, r.Tail(20))
-		return out
-	}
-	rc.addInt("states", r.Distinct)
-	rc.addInt("transitions", r.Generated)
-	rc.addInt("traces_validated_against_impl", len(recs))
-	for _, v := range r.Verdicts {
+	for _, v := range vs {
 		out[v.ID] = append(out[v.ID], v.Clauses...)
 	}
 	return out
